@@ -222,3 +222,83 @@ func lastDelta(ops []Op, inner string) int {
 	a, _ := ref(inner, innerText+last.Chunk)
 	return len(a) - len(b)
 }
+
+// ---------------------------------------------------------------------------------------------
+// large writes: texts around the block sizes a writer might process its argument in (4096, 8192),
+// written in one call or split at a block boundary, the underlying writer stopping at every position
+
+var largeLens = []int{4095, 4096, 4097, 8191, 8192, 8193, 12289}
+var largeEvery = []int{0, 1, 7, 4096} // a line break after every so many bytes (0: none)
+var largePrefixes = []string{">", "ab"}
+
+func largeText(n, every int) string {
+	b := make([]byte, n)
+	for i := range b {
+		b[i] = "ab"[i%2]
+		if every > 0 && (i+1)%every == 0 {
+			b[i] = '\n'
+		}
+	}
+	return string(b)
+}
+
+func largeShards() []string {
+	var out []string
+	for li := range largeLens {
+		for ei := range largeEvery {
+			out = append(out, fmt.Sprintf("large/%d/%d", li, ei))
+		}
+	}
+	return out
+}
+
+func runLarge(c *core.Ctx, li, ei int) {
+	if c.Tier != "thorough" && (largeLens[li] == 12289 || largeLens[li] == 8191 || largeLens[li] == 4095) {
+		return // quick: the lengths at and just above the block sizes
+	}
+	text := largeText(largeLens[li], largeEvery[ei])
+	for _, prefix := range largePrefixes {
+		want, _ := ref(prefix, text)
+		for _, chunks := range [][]string{{text}, {text[:4096%len(text)], text[4096%len(text):]}} {
+			if chunks[0] == "" {
+				continue
+			}
+			step := 1
+			if len(want) > 9000 {
+				step = 3 // larger texts: every third stop point and all those next to a block boundary
+			}
+			for budget := -1; budget < len(want); budget++ {
+				if c.Expired() {
+					return
+				}
+				if budget > 0 && step > 1 && budget%step != 0 && budget%4096 > 2 && budget%4096 < 4094 {
+					continue
+				}
+				in := Input{Prefix: prefix, Chunks: chunks, Budget: budget}
+				caseNo, run := c.Begin()
+				if c.Skip(caseNo, run, in) {
+					continue
+				}
+				ok, v := check(in)
+				c.Exec()
+				c.Validate()
+				c.Edge(int64(v.writes))
+				c.StateN(1)
+				c.NontrivialN(1)
+				if ok {
+					c.Outcome("large-write-accounted")
+				} else {
+					c.Outcome("FAIL:" + v.fingerprint)
+					c.Fail(caseNo, v.classes, "large:"+v.fingerprint, in, clip(v.expected), clip(v.observed))
+				}
+			}
+		}
+	}
+}
+
+func clip(s string) string {
+	if len(s) > 300 {
+		return s[:140] + " ... " + s[len(s)-140:]
+	}
+	return s
+}
